@@ -8,6 +8,7 @@
    resolutions started, API calls returning, an exception escaping a zeroconf callback) - and `obs` - what is
    visible from outside afterwards (controller.discoveries, controllers' pairings / aliases, the pairing's
    description / config_num / accessories version, the cache entry, the request the accessory holds).
+   Stimulus "other" concerns a second device (own service name and id): nothing of this device may change.
 
    Each event is consumed in two steps: the specification takes the step named by the stimulus (phase
    "check" then holds what the specification expects), then `out` and `obs` are compared.  A trace that is
@@ -52,6 +53,8 @@ Stim == /\ phase = "stim" /\ HasEv
              [] E.ev = "shutdown" -> UserShutdown
              [] E.ev = "answer"   -> Answer(E.kind)
              [] E.ev = "db"       -> DbChange(E.v)
+             [] E.ev = "restore"  -> UserRestore(E.c, E.v)
+             [] E.ev = "other"    -> Noop        \* a record of ANOTHER device is announced / removed / processed
              [] E.ev = "end"      -> /\ q = <<>> /\ ~timer /\ resolving = 0      \* nothing is left in flight
                                      /\ Noop
         /\ phase' = "check" /\ UNCHANGED <<tid, l>>
@@ -61,7 +64,8 @@ ObsOK(o) == /\ o.disc = disc /\ o.inctl = inCtl /\ o.alias = alias
             /\ o.pdesc = pdesc /\ o.pcfg = pcfg /\ o.pacc = pacc
             /\ o.cache = cache /\ o.held = Held
 Check == /\ phase = "check"
-         /\ Len(E.out) = Cardinality(ToSet(E.out))          \* nothing happened twice
+         \* nothing happened twice (except that several queued list calls may fail together)
+         /\ \A i, j \in 1..Len(E.out) : (i # j /\ E.out[i] = E.out[j]) => E.out[i][1] = "ret_list"
          /\ ToSet(E.out) = out
          /\ ObsOK(E.obs)
          /\ phase' = "stim" /\ l' = l + 1 /\ UNCHANGED <<vars, tid>>
